@@ -11,7 +11,7 @@
    run, the tree and every merge are compared bit-exactly between the executable binary32 model and the
    implementation (DESIGN C12). *)
 From Coq Require Import ZArith List Bool Lia.
-From KV Require Import Base Weave WeaveProofs WeaveCheck AssemblyProofs DupProofs Kernels Pipeline ExactDiag ExactDiagInst ExactDiagProf ExactDiagRun CladeTasks.
+From KV Require Import Base Weave WeaveProofs WeaveCheck AssemblyProofs DupProofs Kernels Pipeline ExactDiag ExactDiagInst ExactDiagProf ExactDiagRun CladeTasks Bpm BpmBits BpmBitsProofs SellersProofs.
 Import ListNotations.
 Local Open Scope nat_scope.
 
@@ -35,6 +35,15 @@ Example C12_nonvacuous :
   row_of dup_seqs (run_from (st0 dup_seqs) dup_tasks) 1 = row_of dup_seqs (run_from (st0 dup_seqs) dup_tasks) 2 /\
   row_of dup_seqs (run_from (st0 dup_seqs) dup_tasks) 1 = [65;67;45;71;84;65;67]%Z.
 Proof. vm_compute. repeat split; auto. Qed.
+
+(* The containment premise, in terms of the number the code computes: the bit-parallel distance kernel (bpm_block, C11) returns 0
+   exactly when the pattern - its first 1024 symbols - occurs in the text.  So copies are at distance 0 from each other, and a
+   sequence is at distance >= 1 from the copies unless one contains the other: the premise of C12 is the statement that no other
+   pair of the input is as close as the copies are. *)
+Theorem C12_distance_zero_iff_contained : forall (t p : list Z), (1 <= length p)%nat ->
+  (bpm_block_bits t p = 0%Z <-> exists pre post, t = (pre ++ firstn 1024 p ++ post)%list).
+Proof. intros t p H. rewrite (bpm_block_bits_is_sed t p H). apply sed_zero_iff_contained. Qed.
+Print Assumptions C12_distance_zero_iff_contained.
 
 (* The clade step in exact arithmetic.  [cp] marks the indices of the groups of the clade: at the start each marked
    group present is a group of copies of x (a single copy, or a profile of k copies); every task either stays inside
